@@ -51,6 +51,14 @@ def make_cov(kind, N, W, seed, scale, extra):
         S = (Q * e) @ Q.T
     elif kind == "diagonal":
         S = np.diag(np.exp(rng.uniform(-3, 3, size=n) * extra))
+    elif kind == "dead_channels":
+        # a diagonal covariance in which some sensors are dead in every window position (exact zeros), or everything is zero
+        d = np.exp(rng.uniform(-2, 2, size=N))
+        dead = rng.random(N) < max(0.3, extra)
+        if extra > 0.9:
+            dead[:] = True
+        d[dead] = 0.0
+        S = np.diag(np.tile(d, W))
     elif kind == "ar1":
         phi = 0.5 + 0.499 * extra
         idx = np.arange(n)
@@ -102,7 +110,7 @@ def balancing_callback(rho, rp, tp, rd, td):
 def general_case(draw):
     N = draw(st.integers(1, 8))
     W = draw(st.integers(1, max(1, min(10, 60 // N))))
-    kind = draw(st.sampled_from(["sample", "sample", "spectrum", "diagonal", "ar1", "windows"]))
+    kind = draw(st.sampled_from(["sample", "sample", "spectrum", "diagonal", "ar1", "windows", "dead_channels"]))
     lam_form = draw(st.sampled_from(["scalar", "scalar", "const_matrix", "random_matrix"]))
     lam_value = draw(st.one_of(st.just(0.0), st.just(0.11), st.floats(1e-3, 5.0), st.floats(1e-3, 0.5)))
     return {
